@@ -48,7 +48,7 @@ type headerFinalizer struct {
 
 func newHeaderFinalizer(id string, rawConfig map[string]any) (*headerFinalizer, error) {
 	type Config struct {
-		Headers map[string]template.Template `mapstructure:"headers" validate:"required,gt=0"`
+		Headers map[string]template.Template `mapstructure:"headers" validate:"required,gt=0,dive,required"`
 	}
 
 	var conf Config
